@@ -261,9 +261,13 @@ class Logger(tasking.Tasker):
                     StatusNames.get(self.status, 'Unknown')))
 
                 if control == RUN:
-                    console.profuse("     Running Logger {0} ...\n".format(self.name))
-                    self.log()
-                    self.status = RUNNING
+                    if self.status == STARTED or self.status == RUNNING:
+                        console.profuse("     Running Logger {0} ...\n".format(self.name))
+                        self.log()
+                        self.status = RUNNING
+                    else:  # logs not opened and prepared yet
+                        console.profuse("     Need to Start Logger {0}\n".format(self.name))
+                        self.desire = START
 
                 elif control == READY:
                     console.profuse("     Attempting Ready Logger {0}\n".format(self.name))
@@ -285,7 +289,7 @@ class Logger(tasking.Tasker):
                         self.status = STOPPED
 
                 elif control == STOP:
-                    if self.status != STOPPED:
+                    if self.status == STARTED or self.status == RUNNING:
                         console.terse("     Stopping Logger {0} ...\n".format(self.name))
                         self.log() #final log
                         if self.keep and self.reuse:  # recycle in case multiple restarts
